@@ -15,6 +15,8 @@ Tie to /repo (every run):
 import concurrent.futures
 import logging
 import math
+import os
+import re
 from fractions import Fraction as F
 
 import numpy as np
@@ -26,8 +28,9 @@ LEVEL = 'proof'
 NODE_TYPES = ['EQUID', 'LEGENDRE', 'CHEBY-1', 'CHEBY-2', 'CHEBY-3', 'CHEBY-4']
 QUAD_TYPES = ['GAUSS', 'LOBATTO', 'RADAU-LEFT', 'RADAU-RIGHT']
 CLAUSES = ['shape', 'nodes', 'weights', 'Q', 'pad', 'S', 'delta', 'upd']
+UINT63_PRIMS = {'int', 'lsr', 'land', 'eqb', 'lor', 'lsl', 'add', 'sub', 'ltb', 'leb'}
 STOL = F(1, 2 ** 50)       # single-rounding relations (exact bound 2^-53 relative to the result)
-NTOL = F(1, 2 ** 48)       # affine law for nodes, relative to |a|+|b| (observed <= 2^-52.9)
+NTOL = F(1, 2 ** 45)       # affine law for nodes, relative to |a|+|b| (observed <= 2^-52.1)
 
 
 def ceil_log2(fr):
@@ -348,12 +351,17 @@ def run(ck):
     classes = list(ivgen)
     tabs = []          # Tab
     refs = {}          # (nt, qt, M) -> Tab on [0,1]
+    maxM = int(os.environ.get('C05_MAXM', '16'))       # self-test (mutation runs) only; the default covers 1..16
+    # fixed corpus: reproducers of the end-point snap finding, evaluated on every run
+    corpus = {('LEGENDRE', 'GAUSS', 16): [('corpus-offset1e3', 1000.0, 1001.0)],
+              ('LEGENDRE', 'RADAU-RIGHT', 3): [('corpus-offset1e3-narrow', 1000.0, 1000.001)],
+              ('CHEBY-4', 'GAUSS', 1): [('corpus-offset1e3-narrow', 1000.0, 1000.001)]}
     for nt in NODE_TYPES:
         for qt in QUAD_TYPES:
-            for M in range(1, 17):
+            for M in range(1, maxM + 1):
                 if should_reject(M, qt):
                     continue
-                todo = [('unit', 0.0, 1.0)]
+                todo = [('unit', 0.0, 1.0)] + corpus.get((nt, qt, M), [])
                 if thorough:
                     chosen = classes + ['random', 'negative', 'offset1e3-wide', 'width1e3']
                 else:
@@ -383,16 +391,21 @@ def run(ck):
     snapped = []       # known qmat issue: np.allclose(tLeft, nodes[0]) with rtol 1e-5 moves interior nodes onto the end points
     worst_slack = F(0)
     worst_aff_n = worst_aff_w = F(0)
-    for t in tabs:
+    for t in sorted(tabs, key=lambda t_: t_.key[3] != 'unit'):
         t.ores, t.odet, info = t.oracle()
         t.snap = None
         if not t.ores['nodes'] and t.ores['shape']:
             ref = refs[t.key[:3]]
             h = t.b - t.a
             sides = []
-            if t.nodes[0] == t.a and not t.left and np.allclose(t.a, t.a + h * ref.nodes[0]):
+            # snap = the same rule on [0,1] is consistent and has a strictly interior first/last node, the affine image of
+            # that node is within np.allclose's |tleft|-relative tolerance of the end point, and the node sits exactly on it
+            ref_ok = all(ref.ores.values()) if hasattr(ref, 'ores') else False
+            if (ref_ok and ref.nodes[0] > 0.0 and t.nodes[0] == t.a and not t.left
+                    and t.a + h * ref.nodes[0] != t.a and np.allclose(t.a, t.a + h * ref.nodes[0])):
                 sides.append('left')
-            if t.nodes[-1] == t.b and not t.right and np.allclose(t.b, t.a + h * ref.nodes[-1]):
+            if (ref_ok and ref.nodes[-1] < 1.0 and t.nodes[-1] == t.b and not t.right
+                    and t.a + h * ref.nodes[-1] != t.b and np.allclose(t.b, t.a + h * ref.nodes[-1])):
                 sides.append('right')
             if sides:
                 t.snap = sides
@@ -469,7 +482,14 @@ def run(ck):
         vals = [parse_coq_value(v) for v in eval_outputs(out)]
         aff, diag = vals[0], vals[1]
         assert len(diag) == len(bidx) and len(aff) == len(aidx)
-        closed = 'Closed under the global context' in out
+        # the generated file writes mantissas as primitive-integer literals, so Print Assumptions lists the Uint63
+        # primitives used by Uint63.to_Z (not axioms of this development); anything else is refused
+        ax = re.findall(r'^([A-Za-z_][A-Za-z_0-9\.\']*) :', out.split('Axioms:')[-1], re.M) if 'Axioms:' in out else []
+        closed = ('Closed under the global context' in out) or (ax and set(ax) <= UINT63_PRIMS)
+        for a_ in ax:
+            tnote = 'primitive used only to write mantissa literals in generated tables: Uint63.' + a_
+            if tnote not in ck.trusted:
+                ck.trusted.append(tnote)
         for i in gidx:
             tabs[i].cres = {c: True for c in CLAUSES}
         for i, d in zip(bidx, diag):
@@ -478,12 +498,13 @@ def run(ck):
             tabs[i].caff = ok
         ngood_coq += len(gidx)
         ck.obligation('%s: good_spec : Forall coll_spec over %d regenerated tables (kernel-checked via check_coll_sound%s)'
-                      % (fname, len(gidx), ', closed' if closed else ''), closed)
+                      % (fname, len(gidx), ', no axioms beyond Uint63 literal primitives' if closed else ''), bool(closed))
 
     ck.log('Coq validators done')
     # ------------------------------------------------------------------ 5. verdicts
     nacc = 0
     hist = {}
+    nviol = {}
     for t in tabs:
         nt, qt, M, cl = t.key
         hist[cl] = hist.get(cl, 0) + 1
@@ -508,6 +529,9 @@ def run(ck):
         if not failed and all(t.cres.values()):
             nacc += 1
         for c in failed:
+            nviol[c] = nviol.get(c, 0) + 1
+            if nviol[c] > 3:
+                continue      # first three per clause are reported in full, the rest is counted below
             what = {'shape': 'attribute shapes are inconsistent',
                     'nodes': 'nodes are not strictly increasing inside [tleft, tright] with end points exactly as the flags say',
                     'weights': 'weights do not integrate x^k exactly for some k below the reported order',
@@ -519,8 +543,15 @@ def run(ck):
             ck.violation('%s: %s' % (what, t.key), dict(base, clause=c, detail=t.odet.get(c)),
                          match={'kind': c, 'node_type': nt, 'quad_type': qt})
         if t.key[3] != 'unit' and not t.aff_ok and not failed:
+            nviol['affine'] = nviol.get('affine', 0) + 1
+        if t.key[3] != 'unit' and not t.aff_ok and not failed and nviol['affine'] <= 3:
             ck.violation('attributes do not transform affinely with the interval: %s' % (t.key,), dict(base, clause='affine', detail=t.aff_det),
                          match={'kind': 'affine', 'what': t.aff_det.get('what')})
+    for c, cnt in sorted(nviol.items()):
+        if cnt > 3:
+            ck.violation('clause %s fails for %d regenerated tables in total (first three reported individually)' % (c, cnt),
+                         {'clause': c, 'count': cnt, 'tables': [str(t.key) for t in tabs if t.snap is None and (not t.ores[c] if c in t.ores else not getattr(t, 'aff_ok', True))][:60]},
+                         match={'kind': c, 'summary': True})
     if snapped:
         ex = [{'node_type': t.nt, 'quad_type': t.qt, 'num_nodes': t.M, 'tleft': t.a, 'tright': t.b, 'sides': t.snap,
                'nodes_first_last': [t.nodes[0], t.nodes[-1]], 'left_is_node': t.left, 'right_is_node': t.right,
